@@ -244,6 +244,18 @@ func (s c04Spec) filters(k *model.KindDesc) []c04Filter {
 			eval: func(m *c04Model, sel map[uint32]bool, first bool) (map[uint32]bool, bool) {
 				return nval(m, sel, func(model.Val) bool { return true }), true
 			}},
+		// over a bitmap index the value of a row is its membership; judged where the index
+		// was created before the rows (an index created afterwards covers offsets only up
+		// to its last member, and what lies beyond has no value)
+		c04Filter{name: "WithValue(A,==false)", apply: func(t *column.Txn) {
+			t.WithValue("A", func(v interface{}) bool { b, ok := v.(bool); return ok && !b })
+		}, eval: func(m *c04Model, sel map[uint32]bool, first bool) (map[uint32]bool, bool) {
+			return minus(sel, m.sets["A"]), !strings.HasSuffix(s.preset, "-late")
+		}},
+		c04Filter{name: "WithValue(A,any)", apply: func(t *column.Txn) { t.WithValue("A", func(v interface{}) bool { return true }) },
+			eval: func(m *c04Model, sel map[uint32]bool, first bool) (map[uint32]bool, bool) {
+				return sel, !strings.HasSuffix(s.preset, "-late")
+			}},
 		c04Filter{name: "WithValue(zz)", apply: func(t *column.Txn) { t.WithValue("zz", func(v interface{}) bool { return true }) }, eval: empty},
 		c04Filter{name: "WithInt(n,>1)", apply: func(t *column.Txn) { t.WithInt("n", func(v int64) bool { return v > 1 }) },
 			eval: func(m *c04Model, sel map[uint32]bool, first bool) (map[uint32]bool, bool) {
@@ -514,7 +526,7 @@ func init() {
 		Prop:  "C04",
 		Level: "model_checking",
 		Rule: "layouts = every history up to depth d1 over {insert full / partial / without the filtered column / empty, overwrite, delete first / last row (offset reuse)} on presets " +
-			"{empty, word-edge, block-edge, sparse-3, aligned-3 (one in-block position in three blocks with different memberships; indexes created before / after the rows)}; at every layout EVERY filter chain up to length L over 37 filter steps (With/Without/Union x {index A, index B, value column, " +
+			"{empty, word-edge, block-edge, sparse-3, aligned-3 (one in-block position in three blocks with different memberships; indexes created before / after the rows)}; at every layout EVERY filter chain up to length L over 39 filter steps (With/Without/Union x {index A, index B, value column, " +
 			"bool column, string column, missing name}, WithUnion pairs and singles, WithValue/WithInt/WithUint/WithFloat/WithString incl. wrong-type and missing columns) is run on a real " +
 			"transaction and compared with set algebra on the model: selection, Count, Range order/cursor/readers, Sum/Avg/Min/Max over the selected rows holding a value; per numeric kind",
 		Assumptions: []string{
@@ -524,9 +536,9 @@ func init() {
 		Budget: budget(170*time.Second, 28*time.Minute),
 		Bounds: func(tier string) map[string]any {
 			if tier == "quick" {
-				return map[string]any{"d1": "3 (empty), 2 (sparse-3, aligned-3, word-edge), 1 (block-edge)", "L": "2 (all kinds), 3 (int, d1=2), 1 (block-edge)", "filter_steps": 37}
+				return map[string]any{"d1": "3 (empty), 2 (sparse-3, aligned-3, word-edge), 1 (block-edge)", "L": "2 (all kinds), 3 (int, d1=2), 1 (block-edge)", "filter_steps": 39}
 			}
-			return map[string]any{"d1": "3 with L=2 and 2 with L=3 (empty), 3/L2 and 1/L3 (sparse-3), 2 (aligned-3: L2, aligned-3-late: L3, word-edge, block-edge: L2); int also d1=3/L3 and d1=4/L2", "filter_steps": 37}
+			return map[string]any{"d1": "3 with L=2 and 2 with L=3 (empty), 3/L2 and 1/L3 (sparse-3), 2 (aligned-3: L2, aligned-3-late: L3, word-edge, block-edge: L2); int also d1=3/L3 and d1=4/L2", "filter_steps": 39}
 		},
 		Units: func(tier string) (units []eng.Unit) {
 			var specs []c04Spec
